@@ -272,10 +272,21 @@ Definition fview (c : position * option (list Z) * pobs) := let '(p, t, o) := c 
 """
 
 
+def _c_pos(p):
+    """takio.c_pos, except that a ply above 10^60 is written as a hexadecimal Z literal: Coq 8.16 needs ~35 s to read one
+    4300-digit DECIMAL literal (the move number of the int()-limit texts) and 0.2 s for the same number in hex"""
+    if abs(p.ply) < 10 ** 60:
+        return takio.c_pos(p)
+    s = p.stones
+    ply = hex(p.ply) if p.ply >= 0 else f"(-{hex(-p.ply)})"
+    return (f"(P {cz(p.size)} {cz(s[0].stones)} {cz(s[0].caps)} {cz(s[1].stones)} {cz(s[1].caps)} "
+            f"{ply} {takio.c_board(p.board)})")
+
+
 def _pobs(o):
     if o[0] == "acc":
         try:
-            return f"(PAcc {takio.c_pos(o[1])})"
+            return f"(PAcc {_c_pos(o[1])})"
         except Exception:  # noqa
             return "PCrash"
     return "PIll" if o[0] == "ill" else "PCrash"
@@ -317,7 +328,7 @@ def pos_cases(run, positions, name="fmt"):
             o = c13.observe(t)
         except BaseException as e:  # noqa
             t, o = None, ("crash", type(e).__name__)
-        cs.add(f"({takio.c_pos(p)}, {copt(None if t is None else cstr(t))}, {_pobs(o)})",
+        cs.add(f"({_c_pos(p)}, {copt(None if t is None else cstr(t))}, {_pobs(o)})",
                {"key": c13._key("t13fmt", str(takio.j_pos(p))), "origin": origin, "position": takio.j_pos(p), "impl_text": t,
                 "impl_parse": c13.j_obs(o)})
         nontriv += any(len(sq) >= 2 for sq in p.board) or any(sq and sq[0].kind.value for sq in p.board)
